@@ -8,6 +8,7 @@ import Genql.Inst.FloatNum
 import Genql.Model.Eval
 import Genql.Model.Scan
 import Genql.Model.Sanitize
+import Genql.Model.Codec
 open Lean Genql
 
 abbrev V := Val Float
@@ -246,6 +247,22 @@ def handle (j : Json) : Json :=
       match San.sanitizeStr t args with
       | some r => pure (Json.mkObj [("id", id), ("r", "ok"), ("v", Json.str r)])
       | none => pure (Json.mkObj [("id", id), ("r", "error")])
+    | "codec" => do
+      -- given the hex text of some bytes: the three encodings of those bytes, and the decodings of
+      -- the given texts (for the decoder side)
+      let hex ← (← j.getObjVal? "hex").getStr?
+      match Codec.hexDecS hex with
+      | none => pure (Json.mkObj [("id", id), ("r", "error")])
+      | some bs =>
+        let dec (k : String) (f : String → Option (List UInt8)) : Json :=
+          match (j.getObjVal? k).toOption.bind (·.getStr?.toOption) with
+          | some t => match f t with
+            | some out => Json.str (Codec.hexEncS out)
+            | none => Json.str "#error"
+          | none => Json.null
+        pure (Json.mkObj [("id", id), ("r", "ok"), ("hex", Json.str (Codec.hexEncS bs)),
+          ("base32", Json.str (Codec.b32EncS bs)), ("base64", Json.str (Codec.b64uEncS bs)),
+          ("dec32", dec "d32" Codec.b32DecS), ("dec64", dec "d64" Codec.b64uDecS), ("dechex", dec "dhex" Codec.hexDecS)])
     | "compare" => do
       let dec (k : String) : Except String (Option Cmp.GoVal) := do
         let o ← j.getObjVal? k
